@@ -124,6 +124,8 @@ func genC20(e *emitter, tier string, seed int64) {
 		{"lineprotocol", "cpu,host=h1,region=r usage=1.5,n=3i,ok=true,s=\"str\" 1600000000000000000"},
 		{"lineprotocol", "m2 message=\"abc 7\" 5"},
 		{"lineprotocol", "not line protocol"},
+		// text is bytes: an input that is not valid UTF-8 becomes `message` as it is
+		{"text", "caf\xe9 au lait"}, {"text", "\xff\xfe"},
 		// inputs beyond a mebibyte are inputs like any other
 		{"text", strings.Repeat("a", 1<<20+100) + " tail 7"},
 		{"lineprotocol", "big s=\"" + strings.Repeat("b", 1<<20+50) + "\",v=1i 5"},
@@ -152,8 +154,9 @@ func genC20(e *emitter, tier string, seed int64) {
 		}
 		for n, src := range set {
 			if linked {
-				os.WriteFile(filepath.Join(store, n), []byte(src), 0o644)
-				os.Symlink(filepath.Join(store, n), filepath.Join(dir, n))
+				// (the target has another name: a script is known by the name of its workspace entry)
+				os.WriteFile(filepath.Join(store, "v2_"+n+".txt"), []byte(src), 0o644)
+				os.Symlink(filepath.Join(store, "v2_"+n+".txt"), filepath.Join(dir, n))
 				continue
 			}
 			os.WriteFile(filepath.Join(dir, n), []byte(src), 0o644)
